@@ -1065,7 +1065,12 @@ impl<'de> serde::de::Visitor<'de> for DataVisitor<'_> {
             if let Some(mut databuilder) = databuilder {
                 let handle_from_temp_id = if self.dataset.config().strip_temp_ids() {
                     if let BuildItem::Id(s) = &databuilder.id {
-                        resolve_temp_id(s.as_str())
+                        //(only the temporary id of annotation data: `!A1` on data is an ordinary public id)
+                        if s.starts_with(AnnotationData::temp_id_prefix()) {
+                            resolve_temp_id(s.as_str())
+                        } else {
+                            None
+                        }
                     } else {
                         None
                     }
